@@ -260,6 +260,22 @@ theorem cfgKeep_afterConnect (proxy : Bool) : Spec CfgKeep (afterConnect proxy) 
   · exact spec_bind cfgKeep_po (cfgKeep_yieldConnected proxy) (fun _ =>
       spec_bind cfgKeep_po (spec_modS (fun s => rfl)) (fun _ => cfgKeep_runLoop))
 
+theorem cfgKeep_runLoopNoSel : Spec CfgKeep runLoopNoSel := by
+  unfold runLoopNoSel
+  exact spec_tryC cfgKeep_po
+    (spec_bind cfgKeep_po (cfgKeep_onLoopEnd _) (fun _ => cfgKeep_selClose))
+    (fun x => cfgKeep_runFinally x)
+
+theorem cfgKeep_afterConnectNoSel (proxy : Bool) : Spec CfgKeep (afterConnectNoSel proxy) := by
+  unfold afterConnectNoSel
+  refine spec_bind cfgKeep_po (spec_modS (fun s => rfl)) (fun _ => ?_)
+  refine spec_getS_bind cfgKeep_po (fun s => ?_)
+  refine spec_bind cfgKeep_po (cfgKeep_of_step (step_write _ _)) (fun r => ?_)
+  split
+  · exact cfgKeep_closeThenYield _
+  · exact spec_bind cfgKeep_po (cfgKeep_yieldConnected proxy) (fun _ =>
+      spec_bind cfgKeep_po (spec_modS (fun s => rfl)) (fun _ => cfgKeep_runLoopNoSel))
+
 theorem cfgKeep_run : Spec CfgKeep run := by
   unfold run
   refine spec_bind cfgKeep_po (cfgKeep_of_step (step_yieldEv _)) (fun _ => ?_)
@@ -268,6 +284,7 @@ theorem cfgKeep_run : Spec CfgKeep run := by
   · exact cfgKeep_of_step (step_yieldEv _)
   · exact cfgKeep_of_step (step_yieldEv _)
   · exact cfgKeep_afterConnect _
+  · exact cfgKeep_afterConnectNoSel _
 
 /-- the configuration at the end of a connection is the one it was started with -/
 theorem cfg_runAll (cfg : Cfg) (react : React) (env : List EnvStep) : (runAll cfg react env).cfg = cfg := by
